@@ -434,6 +434,34 @@ def more_shapes(row):
     return bad
 
 
+def decorator_reuse(row):
+    """The object wraps(func, ...) returns is a decorator like any other: applied to a second and a third wrapper it gives
+    the same own signature as the first time (arguments given as re-usable containers: a list, a mapping, a string)."""
+    from boltons import funcutils
+    sig, mode = row["sig"], row["mode"]
+    if mode not in ("inject", "expect", "expect_default", "plain"):
+        return []
+    bad = []
+    forms = {"plain": [{}], "inject": [{"injected": [NAME[row["arg"]]]}, {"injected": NAME[row["arg"]]}] if mode == "inject" else [],
+             "expect": [{"expected": ["z"]}, {"expected": "z"}, {"expected": ("z",)}],
+             "expect_default": [{"expected": [("z", 97)]}, {"expected": {"z": 97}}]}[mode]
+    for kw_ in forms:
+        f = make_func(sig, False, False)
+        try:
+            deco = funcutils.wraps(f, **kw_)
+            sigs = []
+            for n_ in range(3):
+                def wrapper(*a, **kw):
+                    return None
+                sigs.append([[n, k, d] for n, k, d, _ in params_of(deco(wrapper))])
+            if sigs[1] != sigs[0] or sigs[2] != sigs[0]:
+                bad.append(("decorator applied again (%s)" % ", ".join("%s=%r" % kv for kv in kw_.items()), "signature",
+                            {"first": sigs[0], "second": sigs[1], "third": sigs[2]}))
+        except Exception as ex:
+            bad.append(("decorator applied again", "wraps-raised:" + core.exc_name(ex), str(ex)[:200]))
+    return bad
+
+
 def argument_forms(row):
     """injected / expected spelt in their other accepted forms (a bare string, a tuple, a mapping), injected and expected
     in one call, update_wrapper called directly (positionally and with func=): always the same own signature."""
@@ -497,7 +525,7 @@ def argument_forms(row):
 
 def run_row(row):
     from boltons import funcutils
-    bad = equalish_defaults(row) + injected_lists(row) + stacked(row) + odd_names(row) + expected_collisions(row) + expected_names(row) + more_shapes(row) + argument_forms(row)
+    bad = equalish_defaults(row) + injected_lists(row) + stacked(row) + odd_names(row) + expected_collisions(row) + expected_names(row) + more_shapes(row) + decorator_reuse(row) + argument_forms(row)
     sig, mode = row["sig"], row["mode"]
     want_params = [[NAME[p[0]], p[1], p[2]] for p in row["wparams"]]
     seen = row["seen"]
